@@ -249,7 +249,7 @@ func genC11Case(t *rapid.T) *C11Case {
 	for i := 0; i < n; i++ {
 		switch rapid.IntRange(0, 9).Draw(t, "specKind") {
 		case 8: // exported helpers run next to the validations (shared buffer pool), incl. the JSON dumper's error path
-			c.Pool = append(c.Pool, &Call{H: &HelperCall{Name: rapid.SampledFrom([]string{"dump", "dumpjson", "dumpjson-bad", "dumpjson-bad", "explain", "genkv", "split", "strescape"}).Draw(t, "helper"), Arg: genString(t, "harg", true)}})
+			c.Pool = append(c.Pool, &Call{H: &HelperCall{Name: rapid.SampledFrom([]string{"dump", "dumpjson", "dumpjson-bad", "dumpjson-bad", "explain", "genkv", "split", "strescape", "urlforfn", "norules", "urlforfn"}).Draw(t, "helper"), Arg: genString(t, "harg", true)}})
 		case 6, 7: // one catalogue rule with several argument / value variants
 			rule := rapid.SampledFrom(c05RuleNames).Draw(t, "familyRule")
 			for j := rapid.IntRange(2, 4).Draw(t, "familySize"); j > 0; j-- {
